@@ -884,7 +884,11 @@ theorem CK.trans {a b c : St} (h1 : CK a b) (h2 : CK b c) : CK a c :=
 theorem ExecsOnly.ck {s s' : St} (h : ExecsOnly s s') : CK s s' := ⟨h.cancelQ, h.cancelRxWaker⟩
 
 theorem removeTimer_ck (s : St) (k : Nat) : CK s (removeTimer s k) := by
-  unfold removeTimer; split <;> exact ⟨rfl, rfl⟩
+  unfold removeTimer; split
+  · simp only; split
+    · exact ⟨by rw [wakeServer_cancelQ], by rw [wakeServer_cancelRxWaker]⟩
+    · exact ⟨rfl, rfl⟩
+  · exact ⟨rfl, rfl⟩
 
 theorem removeRequest_ck (s : St) (id : Nat) : CK s (removeRequest s id).1 := by
   unfold removeRequest
@@ -921,7 +925,11 @@ theorem startRequest_ck (s : St) (now id d : Nat) (tr : Trace) (b : Nat) : CK s 
   unfold startRequest
   split
   · exact CK.refl s
-  · split <;> exact ⟨rfl, rfl⟩
+  · split
+    · exact ⟨rfl, rfl⟩
+    · simp only; split
+      · exact ⟨wakeServer_cancelQ s, wakeServer_cancelRxWaker s⟩
+      · exact ⟨rfl, rfl⟩
 
 
 /-- The stream task is registered on the empty guard-cancellation queue. -/
@@ -1114,9 +1122,7 @@ def settleLoopF : Nat → Sys → Sys × Nat
   | 0, c => (c, 0)
   | fuel + 1, c =>
       if serverRunnable c.s then
-        let s' := pollServer c.s c.now
-        let s' := if s'.nextVis > c.s.nextVis && !s'.dropped && s'.done.isNone then { s' with woken := true } else s'
-        settleLoopF fuel { c with s := s' }
+        settleLoopF fuel { c with s := pollServer c.s c.now }
       else match firstWokenExec c.s with
         | some v => settleLoopF fuel { c with s := pollExec c.s v c.now }
         | none => (c, fuel + 1)
